@@ -441,6 +441,15 @@ func (t *translator) stmts(list []ast.Stmt, next func() string, cont, brk string
 				}
 			}
 		}
+		if len(x.Lhs) == 1 && len(x.Rhs) == 1 && x.Tok == token.ADD_ASSIGN {
+			if ln, ok := t.lookup(x.Lhs[0]); ok {
+				for _, s := range t.spec.stateLn {
+					if s == ln {
+						return "(let " + ln + " := " + ln + " + " + t.expr(x.Rhs[0]) + "; " + tail() + ")"
+					}
+				}
+			}
+		}
 		if len(x.Lhs) == 1 && len(x.Rhs) == 1 {
 			if ix, ok := x.Lhs[0].(*ast.IndexExpr); ok && x.Tok == token.ASSIGN {
 				// m[k] = v on a tracked map: the association list gets a new first binding
@@ -1088,6 +1097,51 @@ func genTable(repo, out string) {
 			tr := t.stmts(fd.Body.List, func() string { return "none" }, "", "")
 			err = t.err
 			d = fmt.Sprintf("def %s %s : %s :=\n  let low : Int := 0\n  let high : Int := 0\n  %s\n", spec.leanName, spec.binders, spec.retType, tr)
+		}
+		if err != nil {
+			d = fmt.Sprintf("/-- UNTRANSLATABLE: %s -/\ndef %s : Unit := ()\n", strings.ReplaceAll(err.Error(), "-/", "- /"), spec.leanName)
+		}
+		sb.WriteString(d + "\n")
+	}
+	// table.Build: the loop that cuts the entries into data blocks (the statements before the index block is built)
+	{
+		var fd *ast.FuncDecl
+		for _, f := range p.files {
+			for _, d := range f.Decls {
+				if x, ok := d.(*ast.FuncDecl); ok && x.Recv == nil && x.Name.Name == "Build" {
+					fd = x
+				}
+			}
+		}
+		spec := transSpec{
+			leanName: "buildBlocks",
+			binders:  "{α : Type} (sz : α → Nat) (dataBlockSize : Nat) (entries : List α)",
+			retType:  "List (List α)",
+			exprMap: map[string]string{"len(entry.Key) + len(entry.Value) + 1": "(sz entry)", "data.Entries": "data", "data": "data", "Data{}": "[]"},
+			state:    []string{"dataBlocks", "currSize", "data.Entries"}, stateLn: []string{"dataBlocks", "currSize", "data"},
+			zero:     map[string]string{"[]Data": "[]", "int": "0", "Data": "[]"},
+			ret:      func(vals []string, st []string) string { return "dataBlocks" },
+			fallOff:  func(st []string) string { return "dataBlocks" },
+			panicVal: "dataBlocks",
+			skipStmt: func(st ast.Stmt) bool {
+				s := goStr(st)
+				return s == "buf := bufferpool.Pool.Get()" || s == "defer bufferpool.Pool.Put(buf)"
+			},
+		}
+		d := ""
+		err := fmt.Errorf("table.Build not found")
+		if fd != nil {
+			var part []ast.Stmt
+			for _, st := range fd.Body.List {
+				if goStr(st) == "var indexBlock Index" {
+					break
+				}
+				part = append(part, st)
+			}
+			t := &translator{spec: spec}
+			tr := t.stmts(part, func() string { return "dataBlocks" }, "", "")
+			err = t.err
+			d = fmt.Sprintf("def %s %s : %s :=\n  let dataBlocks : List (List α) := []\n  let currSize : Nat := 0\n  let data : List α := []\n  %s\n", spec.leanName, spec.binders, spec.retType, tr)
 		}
 		if err != nil {
 			d = fmt.Sprintf("/-- UNTRANSLATABLE: %s -/\ndef %s : Unit := ()\n", strings.ReplaceAll(err.Error(), "-/", "- /"), spec.leanName)
